@@ -6,14 +6,14 @@ from props import dtfam, c03
 
 ID = 'C04'
 PROPS_MODULE = 'Props.C04'
-THEOREMS = ['C04_extension_commutes', 'C04_level1_line', 'C04_c2q_q2c', 'C04_legall_kernel', 'C04_qshift_extension_commutes', 'C04_qshift_stage_line', 'C04_qshift_stage_col', 'C04_qshift_tables', 'C04_QPR_satisfiable']
+THEOREMS = ['C04_extension_commutes', 'C04_level1_line', 'C04_c2q_q2c', 'C04_legall_kernel', 'C04_qshift_extension_commutes', 'C04_qshift_stage_line', 'C04_qshift_stage_col', 'C04_level1_2d', 'C04_qshift_level_2d', 'C04_pyramid', 'C04_qshift_tables', 'C04_QPR_satisfiable']
 VO = ['theories/Props/C04.vo', 'theories/Props/C18.vo', 'theories/Run/RunDtcwt.vo']
 RULE = ('correspondence A: every primitive of the forward and inverse pipelines (colfilter, coldfilt, colifilt and row twins, q2c, c2q), the four level functions, '
         'DTCWTForward and DTCWTInverse (crop rule) on sizes of every residue mod 8 incl. odd; oracle: x == DTCWTInverse(DTCWTForward(x))[..., :H, :W] for all 20 named pairs, J<=4(5), '
         'odd sizes come back even-extended with x top-left. distinct by (pair, J, size residues).')
 TRUSTED = TRUSTED_COMMON + ['the biorthogonal/symmetry hypotheses of C04_level1_line are discharged for the shipped level-1 tables in C18_tables (level1_symmetric, level1_PR, tolerance 2^-44); the reversal and kernel hypotheses of C04_qshift_stage_* for the shipped q-shift tables in C04_qshift_tables (exact; kernel within 2^-48, qshift_32 2^-26)']
 ASSUMES = ['theorems: level-1 perfect reconstruction on a column for any symmetric odd pair meeting the biorthogonal condition, the extension-commutes lemma, c2q(q2c) = 2 s^2; '
-           'one q-shift stage (colifilt o coldfilt, lowpass + highpass) reconstructs for every column length = 0 mod 4 and even filter length under RevPair + the kernel condition QPRref, line level and on the column pass of the model; row twins, 2-D composition of a level and the pad/crop bookkeeping between levels are decided by exact correspondence + the round-trip oracle']
+           'one q-shift stage (colifilt o coldfilt, lowpass + highpass) reconstructs for every column length = 0 mod 4 and even filter length under RevPair + the kernel condition QPRref, line level and on the column pass of the model; whole levels in 2-D (C04_level1_2d, C04_qshift_level_2d) and the whole pyramid for every J and every image size incl. odd, with the pad-to-multiple-of-4 / crop bookkeeping (C04_pyramid), on the model; assumption: both q-shift families have one even length L (true of every shipped table: C04_qshift_tables) and the ring element s satisfies 2 s^2 = 1']
 
 
 def corr_jobs(tier, rng):
